@@ -977,15 +977,19 @@ func zvC14Catalogue() (full []*zvC14Term, core, wide []int) {
 	coreReject := map[int]bool{0: true, 5: true, 9: true, 13: true, 16: true, 21: true, 24: true, 27: true}
 	wideReject := map[int]bool{1: true, 4: true, 6: true, 10: true, 12: true, 19: true, 22: true, 25: true, 26: true}
 	coreAccept := map[int]bool{0: true, 16: true, 22: true}
-	lv := func(b bool, otherwise int) int {
-		if b {
-			return 2
-		}
-		return otherwise
-	}
 	for i, c := range conds {
-		add(lv(coreReject[i], lv(wideReject[i], 0)/2), c.n+"->reject", []zvC14Cond{c.c}, reject)
-		add(lv(coreAccept[i], 0), c.n+"->accept", []zvC14Cond{c.c}, accept)
+		level := 0
+		if coreReject[i] {
+			level = 2
+		} else if wideReject[i] {
+			level = 1
+		}
+		add(level, c.n+"->reject", []zvC14Cond{c.c}, reject)
+		level = 0
+		if coreAccept[i] {
+			level = 2
+		}
+		add(level, c.n+"->accept", []zvC14Cond{c.c}, accept)
 	}
 	// unconditional terms with every action (list)
 	add(2, "accept", nil, accept)
